@@ -237,13 +237,18 @@ def schedule_case(draw):
         sched.append([i, amt, how])
         flow_algos.append(["Or", {"algos": [["Stack", {"algos": [["RunOnDate", {"dates": [ds[i]]}], [how, {"amount": amt}]]}], ["Const", {"v": True}]]}])
     spec["tree"]["algos"] = flow_algos + spec["tree"]["algos"]
+    if draw(st.integers(0, 2)) == 0:
+        # an account charge (or rebate) booked on every run of the stack, not gated by any scheduler: performance, not capital
+        spec["tree"]["algos"].insert(0, ["FeeNoFlow", {"amount": draw(st.sampled_from([50.0, 500.0, -25.0]))}])
+        spec["fee_algo"] = True
+    spec["progress_bar"] = draw(st.booleans())
     spec["schedule"] = sched
     return spec
 
 
 def case_schedule(ctx, spec):
     bt = ctx.bt
-    base = {k: v for k, v in spec.items() if k != "schedule"}
+    base = {k: v for k, v in spec.items() if k not in ("schedule", "fee_algo")}
     try:
         b = c10.run_backtest(bt, base)
     except Exception as e:
@@ -260,10 +265,13 @@ def case_schedule(ctx, spec):
         i = int(np.argmax(~np.isclose(f, exp, rtol=1e-12, atol=1e-9)))
         raise Violation("recorded flows on row %d are %r but the schedule booked %r (schedule %s)" % (i, f[i], exp[i], spec["schedule"]), signature="flows-not-recorded")
     check_recurrence(bt, s, "schedule")
+    v0 = float(np.asarray(s.values, dtype=float)[0])
+    if abs(v0 - exp[0]) > 1e-9 * max(1.0, abs(exp[0])):
+        raise Violation("the value on the pre-start row is %r, not the initial capital %r: something ran before the first date of the data" % (v0, exp[0]), signature="pre-start-row")
     # a flow is capital, not performance: on a date without trading costs and without price moves the index does not move
     p = np.asarray(s.prices, dtype=float)
     moved = bool((np.abs(np.diff(p)) > 1e-12).any())
-    return {"nontrivial": moved and any(i > 0 for i, _, _ in spec["schedule"]), "labels": sorted({how for _, _, how in spec["schedule"]})}
+    return {"nontrivial": moved and any(i > 0 for i, _, _ in spec["schedule"]), "labels": sorted({how for _, _, how in spec["schedule"]}) + (["progress_bar"] if spec.get("progress_bar") else []) + (["ungated_fee_algo"] if spec.get("fee_algo") else [])}
 
 
 SUBS = {"schedule": case_schedule, "recurrence": case_recurrence, "history": case_history, "scale": case_scale, "flows": case_flows}
